@@ -232,6 +232,9 @@ func (l metaLeaf) wire(f comet.Filter) string {
 	return fmt.Sprintf("%s%s;h%s;%s;%s", neg, l.Op, hx(l.Field), ops, string(f.Operator))
 }
 
+// metaErrClass names the class of a search error for the evidence histogram. It is guessed from
+// the message text, which no property constrains: the driver only compares "answer" against
+// "error" (Proto.lean, sameOutcome) and shows the class as a flag.
 func metaErrClass(err error) string {
 	s := err.Error()
 	pre := ""
@@ -329,9 +332,10 @@ func execMeta(c *metaCase) []string {
 			err := idx.Add(*comet.NewMetadataNodeWithID(cmd.ID, md))
 			out := "ok"
 			if err != nil {
-				out = "err"
+				// any error is a rejection; the class behind it is informational (message text)
+				out = "err unsupported"
 				if !strings.Contains(err.Error(), "unsupported type for key") {
-					out = "othererr"
+					out = "err other"
 				}
 			}
 			lines = append(lines, fmt.Sprintf("op add %d %s => %s", cmd.ID, kvsWire(cmd.KVs), out))
